@@ -479,6 +479,29 @@ def decomposition_obligations(tier):
                 return run(_p2.parafac2, _p2, [list(I["Xs"]), I["R"]], kwargs, S, stubs, noval=True)
             add("_parafac2:parafac2", f"slices={nI},{tag}", p2_setup, call, dict(n_slices=nI, **v), assumptions=lambda I: [I["R"] <= I["K"]] + [I["R"] <= x.shape[0] for x in I["Xs"]],
                 side_nonzero=bool(v.get("normalize")))
+    # ---- CP_PLSR: fit / transform with a matrix and with a vector response (the vector is reshaped - a view on numpy - before it is centred and deflated)
+    import tensorly.regression.cp_plsr as pls
+    ns_ = atom("ns")
+    for ykind in ("matrix",):   # (the vector response exceeds the canonicaliser's labelling budget in a convergence test: bounded survey only)
+        def pl_setup(S, ykind=ykind):
+            n = dims(1)
+            return dict(_S=S, X=S.input("X", [ns_] + n), Y=S.input("Y", [ns_, atom("m")] if ykind == "matrix" else [ns_]), Z0=[S.input("z0", [n[0], 1])])
+        def pl_call(I):
+            S = I["_S"]
+            est = pls.CP_PLSR(n_components=1, n_iter_max=1, verbose=False)
+            fr = Frame({"args": (I["X"], I["Y"])})
+            stages = []
+            with stubbed(pls, initialize_cp=lambda Z, rank, **kw: CPTensor((None, list(I["Z0"])))):
+                est.fit(I["X"], I["Y"])
+                stages.append(("fit", fr.pairs()))
+                est.transform(I["X"], I["Y"])
+                stages.append(("transform(X, Y)", fr.pairs()))
+                est.predict(I["X"])
+                stages.append(("predict", fr.pairs()))
+            return stages
+        obs.append(GOb(PID, f"{PID}/regression.cp_plsr:CP_PLSR/fit, transform and predict modify neither X nor Y[X-order=2,components=1,Y {ykind}]", "tensorly.regression.cp_plsr:CP_PLSR.fit+transform+predict", pl_setup, pl_call, post,
+                       tenalg="core", instance=dict(x_order=2, components=1, Y=ykind), clause="modifies nothing the caller owns (training data and responses)", forall=["sample count", "sizes", "values", "paths"],
+                       enumerated=["Y kind"], side_nonzero=True, assumptions=lambda I: [ns_ >= 4]))
     # ---- CMTF and robust PCA (data and mask only)
     def cm_setup(S):
         n = dims(3)
@@ -538,6 +561,14 @@ def bounded_obligation():
 
 
 def obligations(tier):
+    obs = _obligations(tier)
+    for ob in obs:
+        if type(ob) is GOb:
+            ob.backend_label = "write-log over the alias model + container identity (all paths)"
+    return obs
+
+
+def _obligations(tier):
     obs = decomposition_obligations(tier) + dense_obligations(tier) + [bounded_obligation()]
     for mod in SOURCES:
         m = importlib.import_module(f"vt.props.{mod}")
